@@ -175,7 +175,9 @@ def _compile_route(route):
             gen.append(quote_path_segment(s, safe='/').replace('%', '%%'))
 
     if remainder:
-        rpat.append('(?P<%s>.*?)' % remainder)  # unicode
+        # the remainder captures whatever is left of the path, including a
+        # newline (which a bare '.' does not match)
+        rpat.append('(?P<%s>(?s:.*?))' % remainder)  # unicode
         gen.append('%%(%s)s' % remainder)  # native
 
     pattern = ''.join(rpat) + r'\Z'  # unicode
